@@ -9,8 +9,8 @@ THEOREMS = ["Props.C20.c20_chain_inputs", "Props.C20.c20_chain_compose", "Props.
 def run(check, tier):
     import chain_suite as S
 
-    n1 = 300 if tier == "quick" else 6000
-    n2 = 200 if tier == "quick" else 4000
+    n1 = 500 if tier == "quick" else 6000
+    n2 = 400 if tier == "quick" else 4000
     cases = [S.gen_case_chain(check.seed, i) for i in range(n1)]
     rcases = [S.gen_case_refs(check.seed, i) for i in range(n2)]
     results = run_cases("chain_suite", "case_chain", cases, chunk=8) + run_cases("chain_suite", "case_refs", rcases, chunk=8)
